@@ -177,3 +177,1224 @@ theorem vecMat_invertPerm [Zero R] [One R] {n : ℕ} {σ : List ℕ} (h : IsPerm
   · rw [if_neg c, if_neg (fun e => c (key.2 e))]
 
 end PM.C11
+
+namespace PM.C11
+
+
+variable {R : Type}
+
+theorem extendPerm_length (r0 : ℕ) (σ : List ℕ) (m : ℕ) (h : r0 + σ.length ≤ m) :
+    (extendPerm r0 σ m).length = m := by
+  simp [extendPerm]; omega
+
+theorem extendPerm_getD (r0 : ℕ) (σ : List ℕ) (m j d : ℕ) (h : r0 + σ.length ≤ m) (hj : j < m) :
+    (extendPerm r0 σ m).getD j d =
+      if j < r0 then j else if j < r0 + σ.length then σ.getD (j - r0) d + r0 else j := by
+  unfold extendPerm
+  rw [List.getD_eq_getElem?_getD]
+  by_cases h1 : j < r0
+  · rw [List.append_assoc, List.getElem?_append_left (by simpa using h1)]
+    simp [h1]
+  · by_cases h2 : j < r0 + σ.length
+    · rw [List.getElem?_append_left (by simp; omega),
+        List.getElem?_append_right (by simp; omega)]
+      have : j - r0 < σ.length := by omega
+      simp [h1, h2, this, List.getD_eq_getElem?_getD]
+    · rw [List.getElem?_append_right (by simp; omega)]
+      have : j - (r0 + σ.length) < m - (r0 + σ.length) := by omega
+      simp [h1, h2, List.getElem?_range', this]
+      omega
+
+/-- `extend_perm`: the permutation on its own modes, identity on the other modes of the circuit -/
+theorem extend_perm_matrix' [Zero R] [One R] {r0 m : ℕ} {σ : List ℕ}
+    (hσ : IsPermList σ.length σ) (h : r0 + σ.length ≤ m) :
+    permMatL (R := R) m (extendPerm r0 σ m) = embed m r0 (permMatL σ.length σ) := by
+  ext i j
+  rw [embed_apply]
+  simp only [permMatL, extendPerm_getD r0 σ m j.val m h j.isLt]
+  have hi := i.isLt
+  have hj := j.isLt
+  by_cases h1 : j.val < r0
+  · have hj' : ¬ (r0 ≤ j.val ∧ j.val < r0 + σ.length) := by omega
+    by_cases hi' : r0 ≤ i.val ∧ i.val < r0 + σ.length
+    · have : ¬ j.val = i.val := by omega
+      simp [h1, hi', hj', this]
+    · simp [h1, hi', hj', Fin.ext_iff, eq_comm]
+  · by_cases h2 : j.val < r0 + σ.length
+    · have hj' : r0 ≤ j.val ∧ j.val < r0 + σ.length := by omega
+      have hlt : j.val - r0 < σ.length := by omega
+      have hval : σ.getD (j.val - r0) m < σ.length := by
+        rw [List.getD_eq_getElem?_getD, List.getElem?_eq_getElem hlt]
+        exact hσ.2.2 _ (List.getElem_mem hlt)
+      have hsame : σ.getD (j.val - r0) σ.length = σ.getD (j.val - r0) m := by
+        simp [List.getD_eq_getElem?_getD, List.getElem?_eq_getElem hlt]
+      by_cases hi' : r0 ≤ i.val ∧ i.val < r0 + σ.length
+      · simp only [h1, h2, hi', hj', if_false, if_true, and_self, ↓reduceDIte, hsame]
+        have : σ.getD (j.val - r0) m + r0 = i.val ↔ σ.getD (j.val - r0) m = i.val - r0 := by omega
+        simp only [this]
+      · have : ¬ σ.getD (j.val - r0) m + r0 = i.val := by omega
+        simp only [h1, h2, hi', hj', if_false, if_true, ↓reduceDIte, this, and_self]
+    · have hj' : ¬ (r0 ≤ j.val ∧ j.val < r0 + σ.length) := by omega
+      by_cases hi' : r0 ≤ i.val ∧ i.val < r0 + σ.length
+      · have : ¬ j.val = i.val := by omega
+        simp [h1, h2, hi', hj', this]
+      · simp [h1, h2, hi', hj', Fin.ext_iff, eq_comm]
+
+
+theorem extendPerm_lt {r0 m : ℕ} {σ : List ℕ} (hσ : IsPermList σ.length σ) (h : r0 + σ.length ≤ m)
+    (j d : ℕ) (hj : j < m) : (extendPerm r0 σ m).getD j d < m := by
+  rw [extendPerm_getD r0 σ m j d h hj]
+  by_cases h1 : j < r0
+  · rw [if_pos h1]; omega
+  · by_cases h2 : j < r0 + σ.length
+    · have hlt : j - r0 < σ.length := by omega
+      have : σ.getD (j - r0) d < σ.length := by
+        rw [List.getD_eq_getElem?_getD, List.getElem?_eq_getElem hlt]
+        exact hσ.2.2 _ (List.getElem_mem hlt)
+      rw [if_neg h1, if_pos h2]; omega
+    · rw [if_neg h1, if_neg h2]; omega
+
+theorem getD_irrel (a : List ℕ) (x d d' : ℕ) (hx : x < a.length) : a.getD x d = a.getD x d' := by
+  simp [List.getD_eq_getElem?_getD, List.getElem?_eq_getElem hx]
+
+/-- product of two list permutation matrices: the composed list -/
+theorem permMatL_mul [CommRing R] {n : ℕ} (a b : List ℕ) (ha : a.length = n) (hb : b.length = n)
+    (hbl : ∀ j < n, b.getD j 0 < n) :
+    permMatL (R := R) n a * permMatL n b =
+      permMatL n ((List.range n).map fun i => a.getD (b.getD i 0) 0) := by
+  ext i j
+  rw [Matrix.mul_apply]
+  have hj := j.isLt
+  have hbj : b.getD j.val n = b.getD j.val 0 := getD_irrel b _ _ _ (by omega)
+  have hlt := hbl j.val hj
+  have e : ((List.range n).map fun i => a.getD (b.getD i 0) 0).getD j.val n =
+      a.getD (b.getD j.val 0) n := by
+    rw [List.getD_eq_getElem?_getD, List.getElem?_map, List.getElem?_range hj]
+    exact getD_irrel a _ _ _ (by omega)
+  simp only [permMatL, e, hbj]
+  rw [Finset.sum_eq_single (⟨b.getD j.val 0, hlt⟩ : Fin n)]
+  · simp
+  · intro l _ hl
+    have : ¬ b.getD j.val 0 = l.val := fun h => hl (Fin.ext h.symm)
+    rw [if_neg this, mul_zero]
+  · simp
+
+/-- `perm_compose`: the composed list is the product "left first, then right" of the two
+permutations, each on its own modes of the common range -/
+theorem perm_compose_matrix' [CommRing R] {lr0 rr0 : ℕ} {lσ rσ : List ℕ}
+    (hl : IsPermList lσ.length lσ) (hr : IsPermList rσ.length rσ) :
+    (permCompose lr0 lσ rr0 rσ).1 = max (lr0 + lσ.length) (rr0 + rσ.length) ∧
+    permMatL (R := R) (max (lr0 + lσ.length) (rr0 + rσ.length)) (permCompose lr0 lσ rr0 rσ).2 =
+      embed (max (lr0 + lσ.length) (rr0 + rσ.length)) rr0 (permMatL rσ.length rσ) *
+        embed (max (lr0 + lσ.length) (rr0 + rσ.length)) lr0 (permMatL lσ.length lσ) := by
+  refine ⟨rfl, ?_⟩
+  have h1 : lr0 + lσ.length ≤ max (lr0 + lσ.length) (rr0 + rσ.length) := Nat.le_max_left _ _
+  have h2 : rr0 + rσ.length ≤ max (lr0 + lσ.length) (rr0 + rσ.length) := Nat.le_max_right _ _
+  simp only [permCompose]
+  rw [← extend_perm_matrix' hl h1, ← extend_perm_matrix' hr h2,
+    permMatL_mul _ _ (extendPerm_length _ _ _ h2) (extendPerm_length _ _ _ h1)
+      (fun j hj => extendPerm_lt hl h1 j 0 hj), extendPerm_length _ _ _ h2]
+
+
+
+theorem getD_eq_getElem' (l : List ℕ) (i d : ℕ) (h : i < l.length) : l.getD i d = l[i] := by
+  simp [List.getD_eq_getElem?_getD, List.getElem?_eq_getElem h]
+
+theorem swapAdj_perm (vec : List ℕ) (k : ℕ) (hk : k + 1 < vec.length) :
+    (swapAdj vec k).Perm vec := by
+  have h1 : k < vec.length := by omega
+  have e : vec = vec.take k ++ vec[k] :: vec[k + 1] :: vec.drop (k + 2) := by
+    conv_lhs => rw [← List.take_append_drop k vec]
+    rw [List.drop_eq_getElem_cons h1, List.drop_eq_getElem_cons hk]
+  have hlen : (vec.take k).length = k := by simp; omega
+  have e2 : swapAdj vec k = vec.take k ++ vec[k + 1] :: vec[k] :: vec.drop (k + 2) := by
+    apply List.ext_getElem
+    · simp [swapAdj]; omega
+    · intro i hi1 hi2
+      have := swapAdj_getD vec k i 0 hk
+      rw [getD_eq_getElem' _ _ _ hi1] at this
+      rw [this]
+      by_cases c1 : i = k
+      · subst c1
+        rw [List.getElem_append_right (by omega)]
+        simp [hlen, List.getElem?_eq_getElem hk]
+      · by_cases c2 : i = k + 1
+        · subst c2
+          rw [List.getElem_append_right (by omega)]
+          simp [hlen, List.getElem?_eq_getElem h1]
+        · simp only [c1, c2, if_false]
+          have hiv : i < vec.length := by rw [swapAdj_length] at hi1; exact hi1
+          rw [getD_eq_getElem' _ _ _ hiv]
+          by_cases c3 : i < k
+          · rw [List.getElem_append_left (by omega)]
+            simp
+          · rw [List.getElem_append_right (by omega)]
+            have : i - (vec.take k).length = (i - k - 2) + 2 := by omega
+            simp only [this, List.getElem_cons_succ, List.getElem_drop]
+            congr 1; omega
+  rw [e2]
+  conv_rhs => rw [e]
+  exact List.Perm.append_left _ (List.Perm.swap _ _ _)
+
+theorem swapAdj_isPerm {n : ℕ} {vec : List ℕ} (h : IsPermList n vec) (k : ℕ) (hk : k + 1 < n) :
+    IsPermList n (swapAdj vec k) := by
+  have hp := swapAdj_perm vec k (by rw [h.1]; exact hk)
+  exact ⟨by rw [swapAdj_length, h.1], hp.nodup_iff.2 h.2.1, fun x hx => h.2.2 x (hp.mem_iff.1 hx)⟩
+
+theorem idxOf_eq_of_getD {vec : List ℕ} (hn : vec.Nodup) {i t : ℕ} (hi : i < vec.length)
+    (h : vec.getD i 0 = t) : vec.idxOf t = i := by
+  rw [getD_eq_getElem' _ _ _ hi] at h
+  rw [← h]
+  exact hn.idxOf_getElem i hi
+
+theorem getD_idxOf {vec : List ℕ} {t : ℕ} (h : t ∈ vec) : vec.getD (vec.idxOf t) 0 = t := by
+  have hlt := List.idxOf_lt_length_of_mem h
+  rw [getD_eq_getElem' _ _ _ hlt]
+  exact List.getElem_idxOf hlt
+
+theorem bubbleInner_spec {n p t : ℕ} : (fuel : ℕ) → (vec : List ℕ) → IsPermList n vec → t ∈ vec →
+    p ≤ vec.idxOf t → vec.idxOf t ≤ p + fuel →
+    IsPermList n (bubbleInner p t fuel vec).1 ∧ (bubbleInner p t fuel vec).1.getD p 0 = t ∧
+      (∀ q < p, (bubbleInner p t fuel vec).1.getD q 0 = vec.getD q 0) ∧
+      (∀ k ∈ (bubbleInner p t fuel vec).2, k + 2 ≤ n)
+  | 0, vec, hv, ht, h1, h2 => by
+    have : vec.idxOf t = p := by omega
+    have e : bubbleInner p t 0 vec = (vec, []) := rfl
+    rw [e]
+    exact ⟨hv, by rw [← this]; exact getD_idxOf ht, fun _ _ => rfl, by simp⟩
+  | fuel + 1, vec, hv, ht, h1, h2 => by
+    by_cases c : vec.getD p 0 = t
+    · have e : bubbleInner p t (fuel + 1) vec = (vec, []) := by
+        conv_lhs => unfold bubbleInner
+        rw [if_pos c]
+      rw [e]
+      exact ⟨hv, c, fun _ _ => rfl, by simp⟩
+    · have e : bubbleInner p t (fuel + 1) vec =
+          ((bubbleInner p t fuel (swapAdj vec (vec.idxOf t - 1))).1,
+            (vec.idxOf t - 1) :: (bubbleInner p t fuel (swapAdj vec (vec.idxOf t - 1))).2) := by
+        conv_lhs => unfold bubbleInner
+        rw [if_neg c]
+      rw [e]
+      have hlt : vec.idxOf t < n := by rw [← hv.1]; exact List.idxOf_lt_length_of_mem ht
+      have hne : vec.idxOf t ≠ p := by
+        intro e; apply c; rw [← e]; exact getD_idxOf ht
+      have hgt : p < vec.idxOf t := by omega
+      have hk : vec.idxOf t - 1 + 1 < n := by omega
+      have hv' := swapAdj_isPerm hv (vec.idxOf t - 1) hk
+      have hkl : vec.idxOf t - 1 + 1 < vec.length := by rw [hv.1]; exact hk
+      have hnew : (swapAdj vec (vec.idxOf t - 1)).getD (vec.idxOf t - 1) 0 = t := by
+        rw [swapAdj_getD vec _ _ 0 hkl]
+        simp only [if_true]
+        have : vec.idxOf t - 1 + 1 = vec.idxOf t := by omega
+        rw [this]; exact getD_idxOf ht
+      have hidx : (swapAdj vec (vec.idxOf t - 1)).idxOf t = vec.idxOf t - 1 :=
+        idxOf_eq_of_getD hv'.2.1 (by rw [hv'.1]; omega) hnew
+      have ht' : t ∈ swapAdj vec (vec.idxOf t - 1) :=
+        (swapAdj_perm vec _ hkl).mem_iff.2 ht
+      have ih := bubbleInner_spec (n := n) (p := p) (t := t) fuel (swapAdj vec (vec.idxOf t - 1)) hv' ht'
+        (by rw [hidx]; omega) (by rw [hidx]; omega)
+      obtain ⟨i1, i2, i3, i4⟩ := ih
+      refine ⟨i1, i2, ?_, ?_⟩
+      · intro q hq
+        rw [i3 q hq, swapAdj_getD vec _ _ 0 hkl]
+        have a1 : ¬ q = vec.idxOf t - 1 := by omega
+        have a2 : ¬ q = vec.idxOf t - 1 + 1 := by omega
+        simp [a1, a2]
+      · intro k hk'
+        simp only [List.mem_cons] at hk'
+        rcases hk' with rfl | hk'
+        · omega
+        · exact i4 k hk'
+
+theorem idxOf_inj_of_mem {σ : List ℕ} {a b : ℕ} (ha : a ∈ σ) (hb : b ∈ σ)
+    (h : σ.idxOf a = σ.idxOf b) : a = b := by
+  rw [← getD_idxOf ha, ← getD_idxOf hb, h]
+
+theorem bubbleOuter_spec {n : ℕ} {σ : List ℕ} (hσ : IsPermList n σ) : (cnt p : ℕ) → (vec : List ℕ) →
+    p + cnt = n → IsPermList n vec → (∀ q < p, vec.getD q 0 = σ.idxOf q) →
+    IsPermList n (bubbleOuter σ (List.range' p cnt) vec).1 ∧
+      (∀ q < n, (bubbleOuter σ (List.range' p cnt) vec).1.getD q 0 = σ.idxOf q) ∧
+      (∀ k ∈ (bubbleOuter σ (List.range' p cnt) vec).2, k + 2 ≤ n)
+  | 0, p, vec, hp, hv, hinv => by
+    simp only [List.range'_zero, bubbleOuter]
+    exact ⟨hv, fun q hq => hinv q (by omega), by simp⟩
+  | cnt + 1, p, vec, hp, hv, hinv => by
+    have hpn : p < n := by omega
+    have hpm : p ∈ σ := isPermList_mem hσ hpn
+    have htn : σ.idxOf p < n := by rw [← hσ.1]; exact List.idxOf_lt_length_of_mem hpm
+    have htv : σ.idxOf p ∈ vec := isPermList_mem hv htn
+    have hge : p ≤ vec.idxOf (σ.idxOf p) := by
+      by_contra hlt
+      have hq : vec.idxOf (σ.idxOf p) < p := by omega
+      have e1 := hinv _ hq
+      rw [getD_idxOf htv] at e1
+      have hqm : vec.idxOf (σ.idxOf p) ∈ σ := isPermList_mem hσ (by omega)
+      have := idxOf_inj_of_mem hpm hqm e1
+      omega
+    have hfuel : vec.idxOf (σ.idxOf p) ≤ p + σ.length := by
+      have : vec.idxOf (σ.idxOf p) < n := by rw [← hv.1]; exact List.idxOf_lt_length_of_mem htv
+      rw [hσ.1]; omega
+    obtain ⟨j1, j2, j3, j4⟩ := bubbleInner_spec (n := n) (p := p) σ.length vec hv htv hge hfuel
+    have hinv' : ∀ q < p + 1, (bubbleInner p (σ.idxOf p) σ.length vec).1.getD q 0 = σ.idxOf q := by
+      intro q hq
+      by_cases c : q = p
+      · subst c; exact j2
+      · rw [j3 q (by omega)]; exact hinv q (by omega)
+    obtain ⟨k1, k2, k3⟩ := bubbleOuter_spec hσ cnt (p + 1) _ (by omega) j1 hinv'
+    simp only [List.range'_succ, bubbleOuter]
+    refine ⟨k1, k2, ?_⟩
+    intro k hk
+    rcases List.mem_append.1 hk with h | h
+    · exact j4 k h
+    · exact k3 k h
+
+/-- the bubble sort always ends with the inverse permutation and emits only swaps inside the circuit -/
+theorem bubble_ok {n : ℕ} {σ : List ℕ} (hσ : IsPermList n σ) :
+    (∀ k ∈ bubble σ, k + 2 ≤ n) ∧ bubbleFinal σ = invertPerm σ := by
+  have hr : IsPermList n (List.range n) :=
+    ⟨by simp, List.nodup_range, fun x hx => List.mem_range.1 hx⟩
+  have h := bubbleOuter_spec hσ n 0 (List.range n) (by omega) hr (by intro q hq; omega)
+  rw [← List.range_eq_range'] at h
+  obtain ⟨h1, h2, h3⟩ := h
+  simp only [bubble, bubbleFinal, hσ.1]
+  refine ⟨h3, ?_⟩
+  apply List.ext_getElem
+  · simp [invertPerm, h1.1, hσ.1]
+  · intro i hi1 hi2
+    have hin : i < n := by rw [h1.1] at hi1; exact hi1
+    have := h2 i hin
+    rw [getD_eq_getElem' _ _ _ hi1] at this
+    rw [this]
+    simp [invertPerm]
+
+
+
+/-- first match of `find?` on an increasing list: smaller members do not satisfy the predicate -/
+theorem find?_first {l : List ℕ} {p : ℕ → Bool} {i : ℕ} (hl : l.Pairwise (· < ·))
+    (h : l.find? p = some i) : p i = true ∧ i ∈ l ∧ ∀ x ∈ l, x < i → p x = false := by
+  obtain ⟨hp, as, bs, e, has⟩ := List.find?_eq_some_iff_append.1 h
+  refine ⟨hp, by rw [e]; simp, ?_⟩
+  intro x hx hxi
+  rw [e] at hx hl
+  rcases List.mem_append.1 hx with h1 | h1
+  · simpa using has x h1
+  · rcases List.mem_cons.1 h1 with h2 | h2
+    · omega
+    · have := (List.pairwise_append.1 hl).2.1
+      have := (List.pairwise_cons.1 this).1 x h2
+      omega
+
+theorem find?_last {l : List ℕ} {p : ℕ → Bool} {i : ℕ} (hl : l.Pairwise (· > ·))
+    (h : l.find? p = some i) : p i = true ∧ i ∈ l ∧ ∀ x ∈ l, i < x → p x = false := by
+  obtain ⟨hp, as, bs, e, has⟩ := List.find?_eq_some_iff_append.1 h
+  refine ⟨hp, by rw [e]; simp, ?_⟩
+  intro x hx hxi
+  rw [e] at hx hl
+  rcases List.mem_append.1 hx with h1 | h1
+  · simpa using has x h1
+  · rcases List.mem_cons.1 h1 with h2 | h2
+    · omega
+    · have := (List.pairwise_append.1 hl).2.1
+      have := (List.pairwise_cons.1 this).1 x h2
+      omega
+
+theorem firstMoved_spec (σ : List ℕ) :
+    (∀ x < firstMoved σ, σ.getD x 0 = x) ∧ firstMoved σ ≤ σ.length - 1 := by
+  unfold firstMoved
+  cases h : (List.range σ.length).find? (fun i => σ.getD i 0 != i) with
+  | none =>
+    simp only
+    rw [List.find?_eq_none] at h
+    refine ⟨fun x hx => ?_, Nat.le_refl _⟩
+    have := h x (List.mem_range.2 (by omega))
+    simpa using this
+  | some i =>
+    simp only
+    obtain ⟨_, hm, hf⟩ := find?_first List.pairwise_lt_range h
+    refine ⟨fun x hx => ?_, ?_⟩
+    · have := hf x (List.mem_range.2 (by have := List.mem_range.1 hm; omega)) hx
+      simpa using this
+    · have := List.mem_range.1 hm; omega
+
+theorem lastMoved_spec (σ : List ℕ) :
+    (∀ x, lastMoved σ < x → x < σ.length → σ.getD x 0 = x) ∧ lastMoved σ ≤ σ.length - 1 := by
+  unfold lastMoved
+  cases h : (List.range σ.length).reverse.find? (fun i => σ.getD i 0 != i) with
+  | none =>
+    simp only
+    rw [List.find?_eq_none] at h
+    refine ⟨fun x _ hx => ?_, Nat.zero_le _⟩
+    have := h x (by simp; exact hx)
+    simpa using this
+  | some j =>
+    simp only
+    have hp : (List.range σ.length).reverse.Pairwise (· > ·) := by
+      rw [List.pairwise_reverse]; exact List.pairwise_lt_range
+    obtain ⟨_, hm, hf⟩ := find?_last hp h
+    have hj : j < σ.length := by simpa using hm
+    refine ⟨fun x hx hxl => ?_, by omega⟩
+    have := hf x (by simp; exact hxl) hx
+    simpa using this
+
+theorem getD_inj {n : ℕ} {σ : List ℕ} (hσ : IsPermList n σ) {x y : ℕ} (hx : x < n) (hy : y < n)
+    (h : σ.getD x 0 = σ.getD y 0) : x = y := by
+  have hx' : x < σ.length := by rw [hσ.1]; exact hx
+  have hy' : y < σ.length := by rw [hσ.1]; exact hy
+  rw [List.getD_eq_getElem?_getD, List.getD_eq_getElem?_getD, List.getElem?_eq_getElem hx',
+    List.getElem?_eq_getElem hy'] at h
+  exact (hσ.2.1.getElem_inj_iff).1 h
+
+theorem getD_lt {n : ℕ} {σ : List ℕ} (hσ : IsPermList n σ) {x : ℕ} (hx : x < n) : σ.getD x 0 < n := by
+  have hx' : x < σ.length := by rw [hσ.1]; exact hx
+  rw [List.getD_eq_getElem?_getD, List.getElem?_eq_getElem hx']
+  exact hσ.2.2 _ (List.getElem_mem hx')
+
+/-- the reduced permutation is a permutation, and extending it again gives back the original list -/
+theorem reducePerm_extend {n : ℕ} {σ : List ℕ} (hσ : IsPermList n σ) (hn : 0 < n) (r0 : ℕ) :
+    IsPermList (reducePerm r0 σ).2.length (reducePerm r0 σ).2 ∧
+      firstMoved σ + (reducePerm r0 σ).2.length ≤ n ∧
+      extendPerm (firstMoved σ) (reducePerm r0 σ).2 n = σ := by
+  obtain ⟨ha, hi⟩ := firstMoved_spec σ
+  obtain ⟨hb, hj⟩ := lastMoved_spec σ
+  rw [hσ.1] at hi hj hb
+  have lower : ∀ x, firstMoved σ ≤ x → x < n → firstMoved σ ≤ σ.getD x 0 := by
+    intro x h1 h2
+    by_contra hc
+    have hy : σ.getD x 0 < firstMoved σ := by omega
+    have := ha _ hy
+    have := getD_inj hσ (by omega) h2 this
+    omega
+  have upper : ∀ x, x ≤ lastMoved σ → x < n → σ.getD x 0 ≤ lastMoved σ := by
+    intro x h1 h2
+    by_contra hc
+    have hy : lastMoved σ < σ.getD x 0 := by omega
+    have := hb _ hy (getD_lt hσ h2)
+    have := getD_inj hσ (getD_lt hσ h2) h2 this
+    omega
+  have hlen : (reducePerm r0 σ).2.length = lastMoved σ + 1 - firstMoved σ := by simp [reducePerm]
+  have hget : ∀ y, y < lastMoved σ + 1 - firstMoved σ → ∀ d,
+      (reducePerm r0 σ).2.getD y d = σ.getD (firstMoved σ + y) 0 - firstMoved σ := by
+    intro y hy d
+    simp [reducePerm, List.getD_eq_getElem?_getD, hy]
+  refine ⟨⟨rfl, ?_, ?_⟩, by rw [hlen]; omega, ?_⟩
+  · -- nodup
+    simp only [reducePerm]
+    apply List.Nodup.map_on
+    · intro x hx y hy hxy
+      simp only [List.mem_range'_1] at hx hy
+      have h1 := lower x hx.1 (by omega)
+      have h2 := lower y hy.1 (by omega)
+      exact getD_inj hσ (by omega) (by omega) (by omega)
+    · exact List.nodup_range'
+  · intro v hv
+    simp only [reducePerm, List.mem_map, List.mem_range'_1] at hv
+    obtain ⟨x, hx, rfl⟩ := hv
+    rw [hlen]
+    have h1 := lower x hx.1 (by omega)
+    have h2 := upper x (by omega) (by omega)
+    omega
+  · apply List.ext_getElem
+    · rw [extendPerm_length _ _ _ (by rw [hlen]; omega), hσ.1]
+    · intro x hx1 hx2
+      have hxn : x < n := by rw [hσ.1] at hx2; exact hx2
+      have e1 := extendPerm_getD (firstMoved σ) (reducePerm r0 σ).2 n x 0 (by rw [hlen]; omega) hxn
+      rw [getD_eq_getElem' _ _ _ hx1] at e1
+      rw [e1, ← getD_eq_getElem' σ x 0 hx2]
+      by_cases c1 : x < firstMoved σ
+      · rw [if_pos c1, ha x c1]
+      · rw [if_neg c1]
+        by_cases c2 : x < firstMoved σ + (reducePerm r0 σ).2.length
+        · rw [if_pos c2, hget (x - firstMoved σ) (by rw [hlen] at c2; omega)]
+          have : firstMoved σ + (x - firstMoved σ) = x := by omega
+          rw [this]
+          have := lower x (by omega) hxn
+          omega
+        · rw [if_neg c2]
+          rw [hlen] at c2
+          exact (hb x (by omega) hxn).symm
+
+
+
+
+
+
+/-! ### matrix semantics of the simplifier's component lists -/
+section simp
+variable {R : Type} {P : Type}
+
+/-- what the abstract items stand for: the phase of a numeric phase shifter, of a variable one, and
+the matrix of every other component -/
+structure Interp (P : Type) (R : Type) where
+  e : P → R
+  var : ℕ → R
+  otherW : ℕ → ℕ
+  other : (i : ℕ) → Matrix (Fin (otherW i)) (Fin (otherW i)) R
+
+def itemU [CommRing R] (ι : Interp P R) (m : ℕ) (it : Item P) : Matrix (Fin m) (Fin m) R :=
+  match it.k with
+  | .perm σ => embed m it.r0 (permMatL (R := R) σ.length σ)
+  | .ps φ => embed m it.r0 (Matrix.of fun (_ _ : Fin 1) => ι.e φ)
+  | .psVar i => embed m it.r0 (Matrix.of fun (_ _ : Fin 1) => ι.var i)
+  | .other i => embed m it.r0 (ι.other i)
+
+/-- matrix of a component list (first component applied first) -/
+def listU [CommRing R] (ι : Interp P R) (m : ℕ) : List (Item P) → Matrix (Fin m) (Fin m) R
+  | [] => 1
+  | it :: rest => listU ι m rest * itemU ι m it
+
+def Item.WF (ι : Interp P R) (m : ℕ) (it : Item P) : Prop :=
+  it.r0 + it.w ≤ m ∧
+    match it.k with
+    | .perm σ => σ.length = it.w ∧ IsPermList σ.length σ
+    | .ps _ => it.w = 1
+    | .psVar _ => it.w = 1
+    | .other i => ι.otherW i = it.w
+
+theorem listU_append [CommRing R] (ι : Interp P R) (m : ℕ) (a b : List (Item P)) :
+    listU ι m (a ++ b) = listU ι m b * listU ι m a := by
+  induction a with
+  | nil => simp [listU]
+  | cons x r ih => simp [listU, ih, Matrix.mul_assoc]
+
+/-- identity with `z` at position `r` -/
+def diagAt [Zero R] [One R] (m r : ℕ) (z : R) : Matrix (Fin m) (Fin m) R :=
+  Matrix.diagonal fun i => if i.val = r then z else 1
+
+theorem embed_ps [Zero R] [One R] {m r : ℕ} (z : R) :
+    embed m r (Matrix.of fun (_ _ : Fin 1) => z) = diagAt m r z := by
+  ext i j
+  rw [embed_apply]
+  simp only [diagAt, Matrix.diagonal_apply, Matrix.of_apply]
+  by_cases hi : i.val = r
+  · by_cases hj : j.val = r
+    · have : i = j := Fin.ext (by omega)
+      have h1 : r ≤ i.val ∧ i.val < r + 1 := by omega
+      have h2 : r ≤ j.val ∧ j.val < r + 1 := by omega
+      simp [h1, h2, this, hj]
+    · have h1 : r ≤ i.val ∧ i.val < r + 1 := by omega
+      have h2 : ¬ (r ≤ j.val ∧ j.val < r + 1) := by omega
+      have : i ≠ j := fun e => hj (by rw [← e]; exact hi)
+      simp [h1, h2, this]
+  · have h1 : ¬ (r ≤ i.val ∧ i.val < r + 1) := by omega
+    by_cases hj : j.val = r
+    · have h2 : r ≤ j.val ∧ j.val < r + 1 := by omega
+      have : i ≠ j := fun e => hi (by rw [e]; exact hj)
+      simp [h1, h2, this]
+    · have h2 : ¬ (r ≤ j.val ∧ j.val < r + 1) := by omega
+      simp [h1, h2, hi]
+
+theorem diagAt_one [Zero R] [One R] (m r : ℕ) : diagAt (R := R) m r 1 = 1 := by
+  ext i j; simp [diagAt, Matrix.diagonal_apply, Matrix.one_apply]
+
+theorem diagAt_mul [CommRing R] (m r : ℕ) (z w : R) :
+    diagAt m r z * diagAt m r w = diagAt m r (z * w) := by
+  simp only [diagAt, Matrix.diagonal_mul_diagonal]
+  congr 1; funext i; split <;> simp
+
+/-- a matrix that does not mix position `r` with the others commutes with `diagAt m r z` -/
+theorem diagAt_comm [CommRing R] {m r : ℕ} (z : R) (A : Matrix (Fin m) (Fin m) R)
+    (h : ∀ i j : Fin m, (i.val = r ∧ j.val ≠ r) ∨ (i.val ≠ r ∧ j.val = r) → A i j = 0) :
+    A * diagAt m r z = diagAt m r z * A := by
+  ext i j
+  simp only [diagAt, Matrix.mul_diagonal, Matrix.diagonal_mul]
+  by_cases hi : i.val = r <;> by_cases hj : j.val = r
+  · simp [hi, hj, mul_comm]
+  · rw [h i j (Or.inl ⟨hi, hj⟩)]; simp
+  · rw [h i j (Or.inr ⟨hi, hj⟩)]; simp
+  · simp [hi, hj]
+
+theorem embed_noMix [Zero R] [One R] {m o k r : ℕ} (B : Matrix (Fin k) (Fin k) R)
+    (hr : ¬ (o ≤ r ∧ r < o + k)) (i j : Fin m)
+    (h : (i.val = r ∧ j.val ≠ r) ∨ (i.val ≠ r ∧ j.val = r)) : embed m o B i j = 0 := by
+  rw [embed_apply]
+  rcases h with ⟨h1, h2⟩ | ⟨h1, h2⟩
+  · have a : ¬ (o ≤ i.val ∧ i.val < o + k) := by rw [h1]; exact hr
+    have : i ≠ j := fun e => h2 (by rw [← e]; exact h1)
+    simp [a, this]
+  · have a : ¬ (o ≤ j.val ∧ j.val < o + k) := by rw [h2]; exact hr
+    have : i ≠ j := fun e => h1 (by rw [e]; exact h2)
+    by_cases b : o ≤ i.val ∧ i.val < o + k
+    · simp [a, b]
+    · simp [a, b, this]
+
+theorem diagAt_noMix [Zero R] [One R] {m r' r : ℕ} (z : R) (i j : Fin m)
+    (h : (i.val = r ∧ j.val ≠ r) ∨ (i.val ≠ r ∧ j.val = r)) : diagAt m r' z i j = 0 := by
+  have : i ≠ j := by
+    rcases h with ⟨h1, h2⟩ | ⟨h1, h2⟩
+    · exact fun e => h2 (by rw [← e]; exact h1)
+    · exact fun e => h1 (by rw [e]; exact h2)
+  simp [diagAt, Matrix.diagonal_apply, this]
+
+/-- moving a phase on output mode `r` of a permutation to the input mode that is sent to `r` -/
+theorem permMatL_diagAt [CommRing R] {m r : ℕ} {ext : List ℕ} (hp : IsPermList m ext) (hr : r < m)
+    (z : R) : permMatL m ext * diagAt m (ext.idxOf r) z = diagAt m r z * permMatL m ext := by
+  ext i j
+  simp only [diagAt, Matrix.mul_diagonal, Matrix.diagonal_mul, permMatL]
+  have hj : j.val < ext.length := by rw [hp.1]; exact j.isLt
+  have hmem : r ∈ ext := isPermList_mem hp hr
+  by_cases c : ext.getD j.val m = i.val
+  · have key : j.val = ext.idxOf r ↔ i.val = r := by
+      rw [getD_irrel ext _ m 0 hj] at c
+      constructor
+      · intro e; rw [← c, e]; exact getD_idxOf hmem
+      · intro e
+        have := idxOf_eq_of_getD hp.2.1 hj (c.trans e)
+        exact this.symm
+    by_cases d : i.val = r
+    · simp [c, d, key.2 d]
+    · have : ¬ j.val = ext.idxOf r := fun e => d (key.1 e)
+      simp [c, d, this]
+  · rw [if_neg c]; simp
+
+theorem extendPerm_isPerm {r0 m : ℕ} {σ : List ℕ} (hσ : IsPermList σ.length σ)
+    (h : r0 + σ.length ≤ m) : IsPermList m (extendPerm r0 σ m) := by
+  refine ⟨extendPerm_length _ _ _ h, ?_, ?_⟩
+  · rw [List.nodup_iff_injective_getElem]
+    intro ⟨x, hx⟩ ⟨y, hy⟩ hxy
+    simp only at hxy
+    have hxm : x < m := by rw [extendPerm_length _ _ _ h] at hx; exact hx
+    have hym : y < m := by rw [extendPerm_length _ _ _ h] at hy; exact hy
+    rw [← getD_eq_getElem' _ _ 0 hx, ← getD_eq_getElem' _ _ 0 hy,
+      extendPerm_getD _ _ _ _ _ h hxm, extendPerm_getD _ _ _ _ _ h hym] at hxy
+    apply Fin.ext
+    simp only
+    by_cases a1 : x < r0 <;> by_cases b1 : y < r0
+    · simp [a1, b1] at hxy; exact hxy
+    · by_cases b2 : y < r0 + σ.length
+      · simp [a1, b1, b2] at hxy; omega
+      · simp [a1, b1, b2] at hxy; omega
+    · by_cases a2 : x < r0 + σ.length
+      · simp [a1, b1, a2] at hxy; omega
+      · simp [a1, b1, a2] at hxy; omega
+    · by_cases a2 : x < r0 + σ.length <;> by_cases b2 : y < r0 + σ.length
+      · simp only [a1, b1, a2, b2, if_false, if_true] at hxy
+        have := getD_inj hσ (by omega : x - r0 < σ.length) (by omega : y - r0 < σ.length) (by omega)
+        omega
+      · simp only [a1, b1, a2, b2, if_false, if_true] at hxy
+        have := getD_lt hσ (by omega : x - r0 < σ.length)
+        omega
+      · simp only [a1, b1, a2, b2, if_false, if_true] at hxy
+        have := getD_lt hσ (by omega : y - r0 < σ.length)
+        omega
+      · simp only [a1, b1, a2, b2, if_false] at hxy; exact hxy
+  · intro v hv
+    obtain ⟨i, hi, rfl⟩ := List.getElem_of_mem hv
+    rw [← getD_eq_getElem' _ _ 0 hi]
+    exact extendPerm_lt hσ h i 0 (by rw [extendPerm_length _ _ _ h] at hi; exact hi)
+
+end simp
+
+
+section pswalk
+variable {R : Type} {P : Type}
+
+theorem itemU_comm_diagAt [CommRing R] (ι : Interp P R) {m r : ℕ} (z : R) (it : Item P)
+    (hw : it.WF ι m) (hout : ¬ (it.r0 ≤ r ∧ r < it.r0 + it.w)) (hk : ∀ σ, it.k ≠ .perm σ) :
+    itemU ι m it * diagAt m r z = diagAt m r z * itemU ι m it := by
+  apply diagAt_comm
+  intro i j h
+  obtain ⟨hfit, hkind⟩ := hw
+  unfold itemU
+  cases hkk : it.k with
+  | perm σ => exact absurd hkk (hk σ)
+  | ps φ =>
+    simp only [hkk] at hkind ⊢
+    exact embed_noMix _ (by rw [← hkind]; exact hout) i j h
+  | psVar v =>
+    simp only [hkk] at hkind ⊢
+    exact embed_noMix _ (by rw [← hkind]; exact hout) i j h
+  | other v =>
+    simp only [hkk] at hkind ⊢
+    exact embed_noMix _ (by rw [hkind]; exact hout) i j h
+
+/-- a one-mode phase (numeric or variable) commutes with `diagAt`, wherever it sits -/
+theorem ps_comm_diagAt [CommRing R] {m r r' : ℕ} (z w : R) :
+    embed m r' (Matrix.of fun (_ _ : Fin 1) => w) * diagAt m r z =
+      diagAt m r z * embed m r' (Matrix.of fun (_ _ : Fin 1) => w) := by
+  rw [embed_ps]
+  exact diagAt_comm z _ (fun i j h => diagAt_noMix w i j h)
+
+end pswalk
+
+
+section permsound
+variable {R : Type} {P : Type}
+
+theorem permMatL_nil [Zero R] [One R] : permMatL (R := R) 0 [] = 1 := by
+  ext i; exact i.elim0
+
+theorem pushPerm_sound [CommRing R] (ι : Interp P R) {m o : ℕ} {τ : List ℕ} (l : List (Item P))
+    (ho : o + τ.length ≤ m) :
+    listU ι m (pushPerm l (o, τ)) = embed m o (permMatL (R := R) τ.length τ) * listU ι m l := by
+  unfold pushPerm
+  by_cases c : τ.isEmpty
+  · have : τ = [] := List.isEmpty_iff.1 c
+    subst this
+    simp only [List.isEmpty_nil, if_true, List.length_nil]
+    rw [permMatL_nil, embed_one (by simpa using ho), Matrix.one_mul]
+  · simp only [c, Bool.false_eq_true, if_false]
+    rw [listU_append]
+    simp [listU, itemU]
+
+theorem permMatL_invert_transpose [Zero R] [One R] {n : ℕ} {σ : List ℕ} (h : IsPermList n σ) :
+    permMatL (R := R) n (invertPerm σ) = (permMatL n σ)ᵀ := by
+  have e := vecMat_invertPerm (R := R) h
+  ext i j
+  have := congrFun (congrFun e j) i
+  simp only [vecMat, permMatL] at this
+  simp only [permMatL, Matrix.transpose_apply]
+  exact this
+
+theorem invertPerm_length (σ : List ℕ) : (invertPerm σ).length = σ.length := by simp [invertPerm]
+
+theorem invertPerm_getD {n : ℕ} {σ : List ℕ} (h : IsPermList n σ) {i : ℕ} (hi : i < n) (d : ℕ) :
+    (invertPerm σ).getD i d = σ.idxOf i := by
+  simp [invertPerm, List.getD_eq_getElem?_getD, h.1, hi]
+
+theorem invertPerm_isPerm {n : ℕ} {σ : List ℕ} (h : IsPermList n σ) : IsPermList n (invertPerm σ) := by
+  refine ⟨by rw [invertPerm_length, h.1], ?_, ?_⟩
+  · unfold invertPerm
+    apply List.Nodup.map_on
+    · intro x hx y hy hxy
+      rw [h.1] at hx hy
+      exact idxOf_inj_of_mem (isPermList_mem h (List.mem_range.1 hx))
+        (isPermList_mem h (List.mem_range.1 hy)) hxy
+    · exact List.nodup_range
+  · intro v hv
+    simp only [invertPerm, List.mem_map, List.mem_range] at hv
+    obtain ⟨x, hx, rfl⟩ := hv
+    rw [h.1] at hx
+    have := List.idxOf_lt_length_of_mem (isPermList_mem h hx)
+    rw [h.1] at this; exact this
+
+theorem compose_isPerm {n : ℕ} {a b : List ℕ} (ha : IsPermList n a) (hb : IsPermList n b) :
+    IsPermList n ((List.range n).map fun i => a.getD (b.getD i 0) 0) := by
+  refine ⟨by simp, ?_, ?_⟩
+  · apply List.Nodup.map_on
+    · intro x hx y hy hxy
+      have hx' := List.mem_range.1 hx
+      have hy' := List.mem_range.1 hy
+      exact getD_inj hb hx' hy' (getD_inj ha (getD_lt hb hx') (getD_lt hb hy') hxy)
+    · exact List.nodup_range
+  · intro v hv
+    simp only [List.mem_map, List.mem_range] at hv
+    obtain ⟨x, hx, rfl⟩ := hv
+    exact getD_lt ha (getD_lt hb hx)
+
+theorem permMatL_mul' [CommRing R] {n : ℕ} {a b : List ℕ} (ha : IsPermList n a) (hb : IsPermList n b) :
+    permMatL (R := R) n ((List.range n).map fun i => a.getD (b.getD i 0) 0) =
+      permMatL n a * permMatL n b :=
+  (permMatL_mul a b ha.1 hb.1 (fun _ hj => getD_lt hb hj)).symm
+
+theorem permMatL_range [Zero R] [One R] (n : ℕ) : permMatL (R := R) n (List.range n) = 1 := by
+  ext i j
+  have : (List.range n).getD j.val n = j.val := by
+    simp [List.getD_eq_getElem?_getD, j.isLt]
+  simp [permMatL, this, Matrix.one_apply, Fin.ext_iff, eq_comm]
+
+/-- a permutation matrix times its transpose is the identity -/
+theorem permMatL_mul_transpose [CommRing R] {n : ℕ} {ρ : List ℕ} (h : IsPermList n ρ) :
+    permMatL (R := R) n ρ * (permMatL n ρ)ᵀ = 1 := by
+  rw [← permMatL_invert_transpose h, ← permMatL_mul' h (invertPerm_isPerm h), ← permMatL_range]
+  congr 1
+  apply List.ext_getElem
+  · simp
+  · intro i h1 h2
+    have hi : i < n := by simpa using h2
+    simp only [List.getElem_map, List.getElem_range]
+    rw [invertPerm_getD h hi]
+    exact getD_idxOf (isPermList_mem h hi)
+
+/-- conjugating an embedded block by a permutation that carries the block's modes, in order, to
+other consecutive modes: the same block at the new place -/
+theorem permMatL_conj_embed [CommRing R] {m o o' w : ℕ} {ρ : List ℕ} (hρ : IsPermList m ρ)
+    (ho : o + w ≤ m) (B : Matrix (Fin w) (Fin w) R)
+    (hv : ∀ t < w, (invertPerm ρ).getD (o + t) m = o' + t) :
+    permMatL m ρ * embed m o' B = embed m o B * permMatL m ρ := by
+  -- ρ[o' + t] = o + t
+  have hinv : ∀ t < w, o' + t < m ∧ ρ.getD (o' + t) 0 = o + t := by
+    intro t ht
+    have h1 := hv t ht
+    have hlt : o + t < m := by omega
+    rw [invertPerm_getD hρ hlt] at h1
+    have hm := isPermList_mem hρ hlt
+    have := List.idxOf_lt_length_of_mem hm
+    rw [hρ.1, h1] at this
+    refine ⟨this, ?_⟩
+    rw [← h1]; exact getD_idxOf hm
+  ext i j
+  rw [Matrix.mul_apply, Matrix.mul_apply]
+  have hi := i.isLt
+  have hj := j.isLt
+  have hjl : j.val < ρ.length := by rw [hρ.1]; exact hj
+  have him := isPermList_mem hρ hi
+  have hail : ρ.idxOf i.val < m := by
+    have := List.idxOf_lt_length_of_mem him; rw [hρ.1] at this; exact this
+  have hbl : ρ.getD j.val 0 < m := getD_lt hρ hj
+  rw [Finset.sum_eq_single (⟨ρ.idxOf i.val, hail⟩ : Fin m),
+    Finset.sum_eq_single (⟨ρ.getD j.val 0, hbl⟩ : Fin m)]
+  · have e1 : ρ.getD (ρ.idxOf i.val) m = i.val := by
+      rw [getD_irrel ρ _ m 0 (by rw [hρ.1]; exact hail)]; exact getD_idxOf him
+    have e2 : ρ.getD j.val m = ρ.getD j.val 0 := getD_irrel ρ _ _ _ hjl
+    simp only [permMatL, e1, e2, if_true, one_mul, mul_one]
+    rw [embed_apply, embed_apply]
+    simp only
+    -- block membership transfers through ρ
+    have rowiff : (o' ≤ ρ.idxOf i.val ∧ ρ.idxOf i.val < o' + w) ↔ (o ≤ i.val ∧ i.val < o + w) := by
+      constructor
+      · intro h
+        obtain ⟨h1, h2⟩ := hinv (ρ.idxOf i.val - o') (by omega)
+        have : o' + (ρ.idxOf i.val - o') = ρ.idxOf i.val := by omega
+        rw [this, getD_idxOf him] at h2
+        omega
+      · intro h
+        have := hv (i.val - o) (by omega)
+        have e : o + (i.val - o) = i.val := by omega
+        rw [e, invertPerm_getD hρ hi] at this
+        omega
+    have coliff : (o' ≤ j.val ∧ j.val < o' + w) ↔ (o ≤ ρ.getD j.val 0 ∧ ρ.getD j.val 0 < o + w) := by
+      constructor
+      · intro h
+        obtain ⟨h1, h2⟩ := hinv (j.val - o') (by omega)
+        have : o' + (j.val - o') = j.val := by omega
+        rw [this] at h2
+        omega
+      · intro h
+        have h3 := hv (ρ.getD j.val 0 - o) (by omega)
+        have e : o + (ρ.getD j.val 0 - o) = ρ.getD j.val 0 := by omega
+        rw [e, invertPerm_getD hρ hbl] at h3
+        have := idxOf_eq_of_getD hρ.2.1 hjl rfl
+        omega
+    have rowoff : (o' ≤ ρ.idxOf i.val ∧ ρ.idxOf i.val < o' + w) → ρ.idxOf i.val - o' = i.val - o := by
+      intro h
+      have h' := rowiff.1 h
+      have := hv (i.val - o) (by omega)
+      have e : o + (i.val - o) = i.val := by omega
+      rw [e, invertPerm_getD hρ hi] at this
+      omega
+    have coloff : (o' ≤ j.val ∧ j.val < o' + w) → j.val - o' = ρ.getD j.val 0 - o := by
+      intro h
+      obtain ⟨h1, h2⟩ := hinv (j.val - o') (by omega)
+      have : o' + (j.val - o') = j.val := by omega
+      rw [this] at h2
+      omega
+    have eqiff : ρ.idxOf i.val = j.val ↔ i.val = ρ.getD j.val 0 := by
+      constructor
+      · intro h; rw [← h]; exact (getD_idxOf him).symm
+      · intro h; rw [h]; exact idxOf_eq_of_getD hρ.2.1 hjl rfl
+    by_cases c1 : o' ≤ ρ.idxOf i.val ∧ ρ.idxOf i.val < o' + w
+    · have c1' := rowiff.1 c1
+      by_cases c2 : o' ≤ j.val ∧ j.val < o' + w
+      · have c2' := coliff.1 c2
+        rw [dif_pos c1, dif_pos c2, dif_pos c1', dif_pos c2']
+        congr 1 <;> apply Fin.ext <;> simp only
+        · exact rowoff c1
+        · exact coloff c2
+      · have c2' : ¬ (o ≤ ρ.getD j.val 0 ∧ ρ.getD j.val 0 < o + w) := fun h => c2 (coliff.2 h)
+        rw [dif_pos c1, dif_neg c2, dif_pos c1', dif_neg c2']
+    · have c1' : ¬ (o ≤ i.val ∧ i.val < o + w) := fun h => c1 (rowiff.2 h)
+      by_cases c2 : o' ≤ j.val ∧ j.val < o' + w
+      · have c2' := coliff.1 c2
+        rw [dif_neg c1, if_pos c2, dif_neg c1', if_pos c2']
+      · have c2' : ¬ (o ≤ ρ.getD j.val 0 ∧ ρ.getD j.val 0 < o + w) := fun h => c2 (coliff.2 h)
+        rw [dif_neg c1, if_neg c2, dif_neg c1', if_neg c2']
+        by_cases c3 : ρ.idxOf i.val = j.val
+        · have : i.val = ρ.getD j.val 0 := eqiff.1 c3
+          rw [if_pos (Fin.ext c3), if_pos (Fin.ext this)]
+        · have : ¬ i.val = ρ.getD j.val 0 := fun h => c3 (eqiff.2 h)
+          rw [if_neg (fun h => c3 (congrArg Fin.val h)), if_neg (fun h => this (congrArg Fin.val h))]
+  · intro l _ hl
+    have : ¬ ρ.getD j.val m = l.val := by
+      rw [getD_irrel ρ _ m 0 hjl]
+      exact fun h => hl (Fin.ext h.symm)
+    simp only [permMatL]; rw [if_neg this, mul_zero]
+  · simp
+  · intro l _ hl
+    have : ¬ ρ.getD l.val m = i.val := by
+      intro h
+      have hll : l.val < ρ.length := by rw [hρ.1]; exact l.isLt
+      rw [getD_irrel ρ _ m 0 hll] at h
+      exact hl (Fin.ext (idxOf_eq_of_getD hρ.2.1 hll h).symm)
+    simp only [permMatL]; rw [if_neg this, zero_mul]
+  · simp
+
+end permsound
+
+
+
+section stepsound
+variable {R : Type} {P : Type}
+
+/-- **walk-back of `_simplify_PS`**: whatever the walk returns, it is the earlier circuit followed by
+the phase `e φ` on the mode the walk started from -/
+theorem psWalk_sound [CommRing R] [PhaseAlg P] (ι : Interp P R)
+    (hadd : ∀ a b : P, ι.e (PhaseAlg.add a b) = ι.e a * ι.e b)
+    (hdrop : ∀ a : P, PhaseAlg.canDrop a = true → ι.e a = 1)
+    (m : ℕ) (display wantDrop : Bool) (φ : P) :
+    (rev : List (Item P)) → (r0 : ℕ) → (l : List (Item P)) → r0 < m → (∀ it ∈ rev, it.WF ι m) →
+    psWalk m display wantDrop φ r0 rev = some l →
+    listU ι m l.reverse = diagAt m r0 (ι.e φ) * listU ι m rev.reverse
+  | [], _, _, _, _, h => by simp [psWalk] at h
+  | it :: rest, r0, l, hr, hw, h => by
+    have hwit := hw it (by simp)
+    have hwrest : ∀ x ∈ rest, x.WF ι m := fun x hx => hw x (by simp [hx])
+    have step : ∀ (r0' : ℕ) (l' : List (Item P)), r0' < m →
+        psWalk m display wantDrop φ r0' rest = some l' →
+        itemU ι m it * diagAt m r0' (ι.e φ) = diagAt m r0 (ι.e φ) * itemU ι m it →
+        listU ι m (it :: l').reverse = diagAt m r0 (ι.e φ) * listU ι m (it :: rest).reverse := by
+      intro r0' l' hr' hl' hc
+      have ih := psWalk_sound ι hadd hdrop m display wantDrop φ rest r0' l' hr' hwrest hl'
+      simp only [List.reverse_cons, listU_append, listU, Matrix.one_mul]
+      rw [ih, ← Matrix.mul_assoc, hc, Matrix.mul_assoc]
+    unfold psWalk at h
+    cases hk : it.k with
+    | ps ψ =>
+      simp only [hk] at h
+      by_cases c : r0 = it.r0
+      · rw [if_pos c] at h
+        have hl := Option.some.inj h
+        have hitU : itemU ι m it = diagAt m r0 (ι.e ψ) := by
+          unfold itemU; rw [hk]; simp only; rw [embed_ps, c]
+        simp only [List.reverse_cons, listU_append, listU, Matrix.one_mul]
+        rw [hitU, ← Matrix.mul_assoc, diagAt_mul, ← hadd]
+        split at hl
+        · rename_i hd
+          have hcd : PhaseAlg.canDrop (PhaseAlg.add φ ψ) = true := by
+            simp only [dropDecision, Bool.and_eq_true] at hd; exact hd.1.2
+          rw [hdrop _ hcd, diagAt_one, Matrix.one_mul, ← hl]
+        · rw [← hl]
+          simp only [List.reverse_cons, listU_append, listU, Matrix.one_mul]
+          congr 1
+          unfold itemU; simp only; rw [embed_ps, c]
+      · rw [if_neg c] at h
+        obtain ⟨l', hl', rfl⟩ := Option.map_eq_some_iff.1 h
+        refine step r0 l' hr hl' ?_
+        unfold itemU; rw [hk]; simp only
+        exact ps_comm_diagAt _ _
+    | psVar v =>
+      simp only [hk] at h
+      obtain ⟨l', hl', rfl⟩ := Option.map_eq_some_iff.1 h
+      refine step r0 l' hr hl' ?_
+      unfold itemU; rw [hk]; simp only
+      exact ps_comm_diagAt _ _
+    | perm σ =>
+      simp only [hk] at h
+      obtain ⟨l', hl', rfl⟩ := Option.map_eq_some_iff.1 h
+      obtain ⟨hfit, hkind⟩ := hwit
+      simp only [hk] at hkind
+      have hfit' : it.r0 + σ.length ≤ m := by rw [hkind.1]; exact hfit
+      have hext := extendPerm_isPerm hkind.2 hfit'
+      have hmem : r0 ∈ extendPerm it.r0 σ m := isPermList_mem hext hr
+      have hidx : (invertPerm (extendPerm it.r0 σ m)).getD r0 0 = (extendPerm it.r0 σ m).idxOf r0 := by
+        simp [invertPerm, List.getD_eq_getElem?_getD, hext.1, hr]
+      have hlt : (extendPerm it.r0 σ m).idxOf r0 < m := by
+        have := List.idxOf_lt_length_of_mem hmem
+        rw [hext.1] at this; exact this
+      rw [hidx] at hl'
+      refine step _ l' hlt hl' ?_
+      unfold itemU; rw [hk]; simp only
+      rw [← extend_perm_matrix' hkind.2 hfit']
+      exact permMatL_diagAt hext hr _
+    | other v =>
+      simp only [hk] at h
+      by_cases c : it.r0 ≤ r0 ∧ r0 < it.r0 + it.w
+      · rw [if_pos c] at h; exact absurd h (by simp)
+      · rw [if_neg c] at h
+        obtain ⟨l', hl', rfl⟩ := Option.map_eq_some_iff.1 h
+        refine step r0 l' hr hl' ?_
+        exact itemU_comm_diagAt ι _ it hwit c (by intro σ; rw [hk]; simp)
+
+/-- **`_simplify_PS` leaves the matrix unchanged**: the result is the circuit with the phase shifter
+appended, for every `display` flag and every rounding outcome of the drop test -/
+theorem simplifyPS_sound [CommRing R] [PhaseAlg P] (ι : Interp P R)
+    (hadd : ∀ a b : P, ι.e (PhaseAlg.add a b) = ι.e a * ι.e b)
+    (hdrop : ∀ a : P, PhaseAlg.canDrop a = true → ι.e a = 1)
+    (m : ℕ) (display wantDrop : Bool) (comps : List (Item P)) (r0 : ℕ) (φ : P)
+    (hr : r0 < m) (hw : ∀ it ∈ comps, it.WF ι m) :
+    listU ι m (simplifyPS m display wantDrop comps r0 φ) =
+      listU ι m (comps ++ [⟨r0, 1, .ps φ⟩]) := by
+  have hnew : listU ι m (comps ++ [⟨r0, 1, .ps φ⟩]) = diagAt m r0 (ι.e φ) * listU ι m comps := by
+    rw [listU_append]; simp [listU, itemU, embed_ps]
+  rw [hnew]
+  unfold simplifyPS
+  cases h : psWalk m display wantDrop φ r0 comps.reverse with
+  | some l =>
+    simp only
+    have := psWalk_sound ι hadd hdrop m display wantDrop φ comps.reverse r0 l hr
+      (fun it hit => hw it (List.mem_reverse.1 hit)) h
+    rw [this, List.reverse_reverse]
+  | none =>
+    simp only
+    split
+    · rename_i hd
+      have hcd : PhaseAlg.canDrop φ = true := by
+        simp only [dropDecision, Bool.and_eq_true] at hd; exact hd.1.2
+      rw [hdrop _ hcd, diagAt_one, Matrix.one_mul]
+    · exact hnew
+
+
+
+
+theorem isPerm_spec {m : ℕ} {ρ : List ℕ} (hl : ρ.length = m) (h : isPerm ρ = true) : IsPermList m ρ := by
+  have hsub : List.range m ⊆ ρ := by
+    intro x hx
+    simp only [isPerm, List.all_eq_true, List.mem_range, List.contains_iff_mem] at h
+    exact h x (by rw [hl]; exact List.mem_range.1 hx)
+  have hp : (List.range m).Perm ρ :=
+    (List.subperm_of_subset List.nodup_range hsub).perm_of_length_le (by simp [hl])
+  exact ⟨hl, hp.nodup_iff.1 List.nodup_range, fun x hx => List.mem_range.1 (hp.mem_iff.2 hx)⟩
+
+theorem validChoice_spec {m : ℕ} {inComps : List (Item P)} {ρ : List ℕ}
+    (h : validChoice m inComps ρ = true) :
+    IsPermList m ρ ∧ ∀ it ∈ inComps, ∀ t < it.w,
+      (invertPerm ρ).getD (it.r0 + t) m = (invertPerm ρ).getD it.r0 m + t := by
+  simp only [validChoice, Bool.and_eq_true, beq_iff_eq, List.all_eq_true, List.mem_range] at h
+  obtain ⟨⟨h1, h2⟩, h3⟩ := h
+  exact ⟨isPerm_spec h1 h2, fun it hit t ht => h3 it hit t ht⟩
+
+/-- relocating one in-between component by `_move_comp` is conjugation by the unravelling permutation -/
+theorem itemU_conj [CommRing R] (ι : Interp P R) {m : ℕ} {ρ : List ℕ} (hρ : IsPermList m ρ)
+    (it : Item P) (hw : it.WF ι m)
+    (hv : ∀ t < it.w, (invertPerm ρ).getD (it.r0 + t) m = (invertPerm ρ).getD it.r0 m + t) :
+    permMatL m ρ * itemU ι m { it with r0 := (invertPerm ρ).getD it.r0 0 } =
+      itemU ι m it * permMatL m ρ := by
+  obtain ⟨hfit, hkind⟩ := hw
+  have hw0 : 0 < it.w ∨ it.w = 0 := by omega
+  have hd : ∀ t < it.w, (invertPerm ρ).getD (it.r0 + t) m = (invertPerm ρ).getD it.r0 0 + t := by
+    intro t ht
+    rw [hv t ht]
+    congr 1
+    exact getD_irrel _ _ _ _ (by rw [invertPerm_length, hρ.1]; omega)
+  unfold itemU
+  cases hk : it.k with
+  | perm σ =>
+    simp only [hk] at hkind ⊢
+    exact permMatL_conj_embed hρ (by rw [hkind.1]; exact hfit) _ (by rw [hkind.1]; exact hd)
+  | ps φ =>
+    simp only [hk] at hkind ⊢
+    exact permMatL_conj_embed hρ (by rw [← hkind]; exact hfit) _ (by rw [← hkind]; exact hd)
+  | psVar v =>
+    simp only [hk] at hkind ⊢
+    exact permMatL_conj_embed hρ (by rw [← hkind]; exact hfit) _ (by rw [← hkind]; exact hd)
+  | other v =>
+    simp only [hk] at hkind ⊢
+    exact permMatL_conj_embed hρ (by rw [hkind]; exact hfit) _ (by rw [hkind]; exact hd)
+
+theorem moveComp_conj [CommRing R] (ι : Interp P R) {m : ℕ} {ρ : List ℕ} (hρ : IsPermList m ρ) :
+    (l : List (Item P)) → (∀ it ∈ l, it.WF ι m) →
+    (∀ it ∈ l, ∀ t < it.w, (invertPerm ρ).getD (it.r0 + t) m = (invertPerm ρ).getD it.r0 m + t) →
+    permMatL m ρ * listU ι m (moveComp l (invertPerm ρ)) = listU ι m l * permMatL m ρ
+  | [], _, _ => by simp [moveComp, listU]
+  | it :: rest, hw, hv => by
+    have ih := moveComp_conj ι hρ rest (fun x hx => hw x (by simp [hx])) (fun x hx => hv x (by simp [hx]))
+    have h1 := itemU_conj ι hρ it (hw it (by simp)) (hv it (by simp))
+    simp only [moveComp, List.map_cons, listU] at ih ⊢
+    rw [← Matrix.mul_assoc, ih, Matrix.mul_assoc, h1, Matrix.mul_assoc]
+
+theorem reduce_full [CommRing R] {m : ℕ} {τ : List ℕ} (h : IsPermList m τ) (hm : 0 < m) :
+    embed m (reducePerm 0 τ).1 (permMatL (R := R) (reducePerm 0 τ).2.length (reducePerm 0 τ).2) =
+      permMatL m τ := by
+  obtain ⟨h1, h2, h3⟩ := reducePerm_extend h hm 0
+  conv_rhs => rw [← h3]
+  rw [extend_perm_matrix' h1 h2]
+  simp [reducePerm]
+
+theorem reduce_fits {n : ℕ} {τ : List ℕ} (h : IsPermList n τ) (hn : 0 < n) (r0 : ℕ) :
+    (reducePerm r0 τ).1 + (reducePerm r0 τ).2.length ≤ r0 + n := by
+  obtain ⟨_, h2, _⟩ := reducePerm_extend h hn r0
+  simp only [reducePerm] at h2 ⊢
+  omega
+
+/-- **the non-successive branch is sound for every valid choice** -/
+theorem unravel_sound [CommRing R] (ι : Interp P R) {m : ℕ} (hm : 0 < m) (display : Bool)
+    (before : List (Item P)) (prev : Item P) (prevσ : List ℕ) (inComps : List (Item P))
+    (r0 : ℕ) (σ ρ : List ℕ) (l : List (Item P))
+    (hprev : prev.k = .perm prevσ) (hwp : prev.WF ι m) (hwin : ∀ it ∈ inComps, it.WF ι m)
+    (hσ : IsPermList σ.length σ) (hfit : r0 + σ.length ≤ m)
+    (hvalid : validChoice m inComps ρ = true)
+    (h : unravel m display before prev prevσ inComps r0 σ ρ = some l) :
+    listU ι m l = listU ι m (before ++ prev :: inComps ++ [⟨r0, σ.length, .perm σ⟩]) := by
+  obtain ⟨hρ, hv⟩ := validChoice_spec hvalid
+  obtain ⟨hpfit, hpk⟩ := hwp
+  simp only [hprev] at hpk
+  have hpfit' : prev.r0 + prevσ.length ≤ m := by rw [hpk.1]; exact hpfit
+  have hc := extendPerm_isPerm hσ hfit
+  have hpl := extendPerm_isPerm hpk.2 hpfit'
+  have hpi := invertPerm_isPerm hpl
+  have hcomp := compose_isPerm hpi hρ
+  have hll := invertPerm_isPerm hcomp
+  have hright := compose_isPerm hc hρ
+  unfold unravel at h
+  simp only at h
+  split at h
+  · have hl := (Option.some.inj h).symm
+    subst hl
+    rw [pushPerm_sound ι _ (by have := reduce_fits hright hm 0; omega), listU_append,
+      pushPerm_sound ι _ (by have := reduce_fits hll hm 0; omega),
+      reduce_full hright hm, reduce_full hll hm]
+    -- right = P_c * P_ρ ; left = P_ρᵀ * P_prev
+    rw [permMatL_mul' hc hρ, permMatL_invert_transpose hcomp, permMatL_mul' hpi hρ,
+      Matrix.transpose_mul, permMatL_invert_transpose hpl, Matrix.transpose_transpose]
+    have hmv := moveComp_conj ι hρ inComps hwin hv
+    have hitem : itemU ι m prev = permMatL m (extendPerm prev.r0 prevσ m) := by
+      unfold itemU; rw [hprev]; simp only
+      exact (extend_perm_matrix' hpk.2 hpfit').symm
+    have hnew : itemU ι m (⟨r0, σ.length, .perm σ⟩ : Item P) = permMatL m (extendPerm r0 σ m) := by
+      unfold itemU; simp only
+      exact (extend_perm_matrix' hσ hfit).symm
+    simp only [List.append_assoc, List.cons_append, listU_append, listU, Matrix.one_mul, hitem, hnew]
+    -- P_c P_ρ M' P_ρᵀ P_prev U_b = P_c M P_ρ P_ρᵀ P_prev U_b
+    calc permMatL m (extendPerm r0 σ m) * permMatL m ρ *
+          (listU ι m (moveComp inComps (invertPerm ρ)) *
+            ((permMatL m ρ)ᵀ * permMatL m (extendPerm prev.r0 prevσ m) * listU ι m before))
+        = permMatL m (extendPerm r0 σ m) * (permMatL m ρ * listU ι m (moveComp inComps (invertPerm ρ))) *
+            ((permMatL m ρ)ᵀ * permMatL m (extendPerm prev.r0 prevσ m) * listU ι m before) := by
+          simp only [Matrix.mul_assoc]
+      _ = permMatL m (extendPerm r0 σ m) * listU ι m inComps * (permMatL m ρ * (permMatL m ρ)ᵀ) *
+            permMatL m (extendPerm prev.r0 prevσ m) * listU ι m before := by
+          rw [hmv]; simp only [Matrix.mul_assoc]
+      _ = _ := by
+          rw [permMatL_mul_transpose hρ]; simp only [Matrix.mul_assoc, Matrix.one_mul]
+  · exact absurd h (by simp)
+
+
+theorem reduce_perm_matrix_aux [Zero R] [One R] {N n r0 : ℕ} {σ : List ℕ} (hσ : IsPermList n σ)
+    (hn : 0 < n) (hN : r0 + n ≤ N) :
+    embed N (reducePerm r0 σ).1
+        (permMatL (R := R) (reducePerm r0 σ).2.length (reducePerm r0 σ).2) =
+      embed N r0 (permMatL n σ) := by
+  obtain ⟨h1, h2, h3⟩ := reducePerm_extend hσ hn r0
+  conv_rhs => rw [← h3]
+  rw [extend_perm_matrix' h1 h2, embed_embed hN h2]
+  rfl
+
+theorem keep_sound [CommRing R] (ι : Interp P R) {m : ℕ} (hm : 0 < m) (comps : List (Item P))
+    (r0 : ℕ) (σ : List ℕ) (hσ : IsPermList σ.length σ) (hfit : r0 + σ.length ≤ m) :
+    listU ι m (pushPerm comps (reducePerm 0 (extendPerm r0 σ m))) =
+      listU ι m (comps ++ [⟨r0, σ.length, .perm σ⟩]) := by
+  have hc := extendPerm_isPerm hσ hfit
+  rw [pushPerm_sound ι _ (by have := reduce_fits hc hm 0; omega), reduce_full hc hm,
+    extend_perm_matrix' hσ hfit, listU_append]
+  simp [listU, itemU]
+
+/-- **`_simplify_perm` leaves the matrix unchanged**, in every branch, for both `display` modes and
+for *every* unravelling permutation that satisfies `validChoice` (an invalid one is rejected by the
+specification: the result is `none`). -/
+theorem simplify_perm_sound' [CommRing R] (ι : Interp P R) {m : ℕ} (hm : 0 < m)
+    (fixedAdj display : Bool) (comps : List (Item P)) (r0 : ℕ) (σ : List ℕ)
+    (choice : Option (List ℕ)) (l : List (Item P))
+    (hw : ∀ it ∈ comps, it.WF ι m) (hσ : IsPermList σ.length σ) (h0 : 0 < σ.length)
+    (hfit : r0 + σ.length ≤ m)
+    (h : simplifyPerm fixedAdj m display comps r0 σ choice = some l) :
+    listU ι m l = listU ι m (comps ++ [⟨r0, σ.length, .perm σ⟩]) := by
+  have hnew : listU ι m (comps ++ [⟨r0, σ.length, .perm σ⟩]) =
+      embed m r0 (permMatL (R := R) σ.length σ) * listU ι m comps := by
+    rw [listU_append]; simp [listU, itemU]
+  unfold simplifyPerm at h
+  split at h
+  · -- single
+    have hl := (Option.some.inj h).symm
+    subst hl
+    rw [hnew, pushPerm_sound ι _ (by have := reduce_fits hσ h0 r0; omega),
+      reduce_perm_matrix_aux hσ h0 hfit]
+  · -- successive
+    split at h
+    · rename_i lr0 lw lσ hlast
+      have hl := (Option.some.inj h).symm
+      subst hl
+      have hdec : comps = comps.dropLast ++ [⟨lr0, lw, .perm lσ⟩] :=
+        (List.dropLast_append_getLast? _ hlast).symm
+      have hwl : (⟨lr0, lw, .perm lσ⟩ : Item P).WF ι m :=
+        hw _ (by rw [hdec]; simp)
+      obtain ⟨hlfit, hlk⟩ := hwl
+      simp only at hlk hlfit
+      have hlfit' : lr0 + lσ.length ≤ m := by rw [hlk.1]; exact hlfit
+      obtain ⟨hc1, hc2⟩ := perm_compose_matrix' (R := R) (lr0 := lr0) (rr0 := r0) hlk.2 hσ
+      have hmax : max (lr0 + lσ.length) (r0 + σ.length) ≤ m := Nat.max_le.2 ⟨hlfit', hfit⟩
+      have h1 : lr0 + lσ.length ≤ max (lr0 + lσ.length) (r0 + σ.length) := Nat.le_max_left _ _
+      have h2 : r0 + σ.length ≤ max (lr0 + lσ.length) (r0 + σ.length) := Nat.le_max_right _ _
+      have hcp : IsPermList (max (lr0 + lσ.length) (r0 + σ.length)) (permCompose lr0 lσ r0 σ).2 := by
+        have := compose_isPerm (extendPerm_isPerm hσ h2) (extendPerm_isPerm hlk.2 h1)
+        simpa [permCompose, extendPerm_length _ _ _ h2] using this
+      have hpos : 0 < max (lr0 + lσ.length) (r0 + σ.length) := by omega
+      rw [pushPerm_sound ι _ (by have := reduce_fits hcp hpos 0; omega),
+        reduce_perm_matrix_aux hcp hpos (by omega : 0 + max (lr0 + lσ.length) (r0 + σ.length) ≤ m),
+        hc2, ← embed_mul (by omega), embed_embed (by omega) h2, embed_embed (by omega) h1]
+      conv_rhs => rw [hdec]
+      simp only [List.append_assoc, listU_append, listU, itemU, Matrix.one_mul, Nat.zero_add,
+        List.cons_append, List.nil_append, Matrix.mul_assoc]
+    · exact absurd h (by simp)
+  · -- non-successive
+    simp only at h
+    cases choice with
+    | none =>
+      have hl := (Option.some.inj h).symm
+      subst hl
+      exact keep_sound ι hm comps r0 σ hσ hfit
+    | some ρ =>
+      cases hli : lastPermIdx comps with
+      | none => rw [hli] at h; exact absurd h (by simp)
+      | some i =>
+        rw [hli] at h
+        simp only at h
+        split at h
+        · rename_i pr0 pw pσ hget
+          split at h
+          · rename_i hvalid
+            obtain ⟨hilt, hci⟩ := List.getElem?_eq_some_iff.1 hget
+            have hdec : comps = comps.take i ++ ⟨pr0, pw, .perm pσ⟩ :: comps.drop (i + 1) := by
+              conv_lhs => rw [← List.take_append_drop i comps, List.drop_eq_getElem_cons hilt, hci]
+            have hwp : (⟨pr0, pw, .perm pσ⟩ : Item P).WF ι m := hw _ (by rw [hdec]; simp)
+            have hwin : ∀ it ∈ comps.drop (i + 1), it.WF ι m :=
+              fun it hit => hw it (List.mem_of_mem_drop hit)
+            split at h
+            · rename_i l' hun
+              have hl := (Option.some.inj h).symm
+              subst hl
+              rw [unravel_sound ι hm display _ _ pσ _ r0 σ ρ l rfl hwp hwin hσ hfit hvalid hun]
+              conv_rhs => rw [hdec]
+            · have hl := (Option.some.inj h).symm
+              subst hl
+              exact keep_sound ι hm comps r0 σ hσ hfit
+          · exact absurd h (by simp)
+        · exact absurd h (by simp)
+
+
+/-- **one iteration of `simplify` leaves the matrix unchanged**: whatever the rounding of the drop
+test (`wantDrop`) and whatever valid unravelling permutation (`choice`) -/
+theorem simplify_step_sound' [CommRing R] [PhaseAlg P] (ι : Interp P R)
+    (hadd : ∀ a b : P, ι.e (PhaseAlg.add a b) = ι.e a * ι.e b)
+    (hdrop : ∀ a : P, PhaseAlg.canDrop a = true → ι.e a = 1)
+    {m : ℕ} (fixedAdj display wantDrop : Bool) (choice : Option (List ℕ))
+    (comps : List (Item P)) (it : Item P) (l : List (Item P))
+    (hw : ∀ x ∈ comps, x.WF ι m) (hit : it.WF ι m) (hpos : 0 < it.w)
+    (h : simplifyStep fixedAdj m display wantDrop choice comps it = some l) :
+    listU ι m l = listU ι m (comps ++ [it]) := by
+  obtain ⟨r0, w, k⟩ := it
+  obtain ⟨hfit, hk⟩ := hit
+  simp only at hfit hk hpos
+  have hm : 0 < m := by omega
+  unfold simplifyStep at h
+  cases k with
+  | perm σ =>
+    simp only at h hk
+    obtain ⟨hlen, hp⟩ := hk
+    subst hlen
+    exact simplify_perm_sound' ι hm fixedAdj display comps r0 σ choice l hw hp hpos hfit h
+  | ps φ =>
+    simp only at h hk
+    subst hk
+    have hl := (Option.some.inj h).symm
+    subst hl
+    exact simplifyPS_sound ι hadd hdrop m display wantDrop comps r0 φ (by omega) hw
+  | psVar v =>
+    simp only at h
+    rw [← Option.some.inj h]
+  | other v =>
+    simp only at h
+    rw [← Option.some.inj h]
+
+
+end stepsound
+
+end PM.C11
